@@ -2,6 +2,7 @@ import NxProofs.Cipher
 import NxProofs.Refine
 import NxProofs.RefineSend
 import NxProofs.HandlePath
+import NxProofs.Liveness
 /-!
 # C01 — two L1 endpoints and the network between them, as one system
 
@@ -67,12 +68,14 @@ structure Sys where
   accepted : List Bytes    -- the non-empty messages whose `send` returned
   nrel : Nat               -- ghost: how many packets `b`'s window has released so far
   pend : List Frag := []   -- the fragments the `send` in progress at `a` still has to emit (the local state of its loop)
+  clean : Bool := true     -- ghost: `disconnect()` was called while no `send` was between its fragments
 
 inductive SysOp where
   | send (now : Time) (data : Bytes)   -- `await a.send(data, sub)` with nothing happening between its fragments
   | begin (now : Time) (data : Bytes)  -- the same call, up to its fragment loop (state check, send lock, split)
   | frag (now : Time)                  -- one turn of that loop: `send_fragment` of the next fragment
   | ping (now : Time)                  -- the keep-alive timer of `a` fires: `send_ping()` (numbered from substream 0's counter)
+  | disconnect (now : Time)            -- `a.disconnect()` up to its wait: state DISCONNECTING, a reliable DISCONNECT (substream 0)
   | deliver (j : Nat)                  -- the network hands a copy of `net[j]` to `b` (straight to `process_reliable`)
   | deliverH (now : Time) (j : Nat)    -- the same copy through the whole receive path `b.handle`: gates, acknowledgement, `process_reliable`
   | inject (now : Time) (p : Packet)   -- somebody hands `b.handle` ANY packet whose signature is not the one `b` expects of it
@@ -98,6 +101,10 @@ def Sys.step (env : Env) (sub : Nat) (s : Sys) : SysOp → Sys
   | .ping now =>
     let r := s.a.sendPing env now
     { s with a := r.c, net := s.net ++ emitted r }
+  | .disconnect now =>
+    if s.a.state ≠ STATE_CONNECTED then s else
+    let r := s.a.disconnect env now
+    { s with a := r.c, net := s.net ++ emitted r, clean := s.pend.isEmpty }
   | .deliver j =>
     match s.net[j]? with
     | none => s
@@ -134,6 +141,9 @@ def Sys.opOk (env : Env) (sub : Nat) (s : Sys) : SysOp → Bool
     | [] => true
     | f :: _ => (s.a.sendPacket env now (dataPacket sub f)).err.isNone && (s.a.sendPacket env now (dataPacket sub f)).c.linkUp
   | .ping now => decide (sub = 0) && (s.a.sendPing env now).err.isNone && (s.a.sendPing env now).c.linkUp
+  | .disconnect now =>
+    decide (s.a.state ≠ STATE_CONNECTED) ||
+      (decide (sub = 0) && (s.a.disconnect env now).err.isNone && (s.a.disconnect env now).c.linkUp)
   | .deliver j => decide (j < s.nrel + 32768 ∧ s.nrel < j + 32768) || decide (s.net.length ≤ j)
   | .deliverH _ j => decide (j < s.nrel + 32768 ∧ s.nrel < j + 32768) || decide (s.net.length ≤ j)
   | .inject _ p => decide (p.signature ≠ s.b.expectedSig env p)
@@ -342,6 +352,121 @@ theorem send_cipher (env : Env) (hcomp : ∀ b, env.compress b = b) (now : Time)
     · rfl
     · exact sendFrags_cipher env hcomp now sub _ c n pos hs
 
+/-! ### the connection state along the send path: unchanged, or DISCONNECTED (a dead link found by `transport.send`) -/
+
+def StateFr (c c' : Conn) : Prop := c'.state = c.state ∨ c'.state = STATE_DISCONNECTED
+
+theorem stateFr_refl (c : Conn) : StateFr c c := Or.inl rfl
+
+theorem stateFr_trans {a b c : Conn} (h1 : StateFr a b) (h2 : StateFr b c) : StateFr a c := by
+  rcases h2 with h | h
+  · rcases h1 with g | g
+    · exact Or.inl (h.trans g)
+    · exact Or.inr (h.trans g)
+  · exact Or.inr h
+
+theorem transmit_state (env : Env) (now : Time) (c : Conn) (p : Packet) : StateFr c (c.transmit env now p).c := by
+  unfold Conn.transmit
+  split
+  · exact Or.inr rfl
+  · split
+    · exact Or.inl rfl
+    · simp only [R.ok]; split
+      · left; unfold Conn.arm; cases c.sched <;> rfl
+      · exact Or.inl rfl
+
+theorem assignIf_state (c c' : Conn) (p : Packet) (isAck : Bool) (n : Nat) (h : c.assignIf p isAck = .ok (n, c')) : c'.state = c.state := by
+  unfold Conn.assignIf at h
+  split at h
+  · cases h; rfl
+  · unfold Conn.assign at h
+    split at h
+    · split at h
+      · cases h
+      · cases h; rfl
+    · split at h
+      · cases h; rfl
+      · split at h <;> (cases h; rfl)
+
+theorem encodeIf_state (env : Env) (c c' : Conn) (p : Packet) (isAck : Bool) (d : Bytes) (h : c.encodeIf env p isAck = .ok (d, c')) :
+    c'.state = c.state := by
+  unfold Conn.encodeIf at h
+  split at h
+  · unfold Conn.encodePayload at h
+    split at h
+    · split at h
+      · split at h
+        · cases h
+        · split at h <;> (cases h; rfl)
+      · split at h <;> (cases h; rfl)
+    · cases h; rfl
+  · cases h; rfl
+
+theorem sendPacket_state (env : Env) (now : Time) (c : Conn) (p : Packet) : StateFr c (c.sendPacket env now p).c := by
+  unfold Conn.sendPacket
+  simp only []
+  split
+  · exact stateFr_refl c
+  · rename_i pid c1 h1
+    have e1 := assignIf_state _ _ _ _ _ h1
+    split
+    · exact Or.inl e1
+    · rename_i payload c2 h2
+      have e2 := encodeIf_state _ _ _ _ _ _ h2
+      exact stateFr_trans (Or.inl (e2.trans e1)) (transmit_state env now c2 _)
+
+theorem bind_stateFr (c : Conn) (r : R) (f : Conn → R) (hr : StateFr c r.c) (hf : ∀ x, StateFr x (f x).c) : StateFr c (r.bind f).c := by
+  unfold R.bind
+  cases r.err with
+  | some e => exact hr
+  | none => exact stateFr_trans hr (hf _)
+
+theorem sendFrags_state (env : Env) (now : Time) (sub : Nat) : ∀ (fs : List Frag) (c : Conn), StateFr c (Conn.sendFrags env now sub fs c).c := by
+  intro fs
+  induction fs with
+  | nil => intro c; exact stateFr_refl c
+  | cons f fs ih =>
+    intro c
+    rw [sendFrags_cons]
+    exact bind_stateFr c _ _ (sendPacket_state env now c _) ih
+
+theorem send_state (env : Env) (now : Time) (c : Conn) (data : Bytes) (sub : Nat) : StateFr c (c.send env now data sub).c := by
+  unfold Conn.send
+  split
+  · exact stateFr_refl c
+  · split
+    · exact stateFr_refl c
+    · exact sendFrags_state env now sub _ c
+
+theorem connected_of_stateFr {c c' : Conn} (h : StateFr c c') (h' : c'.state = STATE_CONNECTED) : c.state = STATE_CONNECTED := by
+  rcases h with g | g
+  · rw [← g]; exact h'
+  · rw [g] at h'; exact absurd h' (by decide)
+
+/-- `disconnect()` on a CONNECTED connection, decomposed: state DISCONNECTING, id from substream 0's counter, then `transmit` -/
+theorem sendDisconnect_eq (env : Env) (now : Time) (c : Conn) (n pos : Nat) (hs : SRel c 0 n pos) (hst : c.state = STATE_CONNECTED) :
+    ∃ (q : Packet) (c2 : Conn), c.disconnect env now = c2.transmit env now q ∧
+      wireOf q = ⟨n, .disconnect, []⟩ ∧ q.substreamId = 0 ∧ hasReliable q.flags = true ∧ Ordinary q ∧
+      SRel c2 0 (seqNext n) pos ∧ cipherOf c2 0 = cipherOf c 0 ∧ c2.linkUp = c.linkUp ∧ c2.fragmentSize = c.fragmentSize ∧
+      c2.state = STATE_DISCONNECTING := by
+  obtain ⟨hctr, sc, hsc, hpos⟩ := hs
+  have hrel : hasReliable (FLAG_RELIABLE + FLAG_NEED_ACK) = true := by decide
+  have hack : (hasAck (FLAG_RELIABLE + FLAG_NEED_ACK) || hasMultiAck (FLAG_RELIABLE + FLAG_NEED_ACK)) = false := by decide
+  have hne : TYPE_DISCONNECT ≠ TYPE_SYN := by decide
+  have hnd : TYPE_DISCONNECT ≠ TYPE_DATA := by decide
+  have hlt : 0 < c.counters.length := by
+    cases h : c.counters[0]? with
+    | none => rw [h] at hctr; cases hctr
+    | some x => exact (List.getElem?_eq_some_iff.mp h).1
+  have hst' : ¬ c.state ≠ STATE_CONNECTED := fun h => h hst
+  simp only [Conn.disconnect, hst', if_false, Conn.sendPacket, mkPacket, hack, Conn.assignIf, Bool.false_eq_true, Conn.assign, hrel, if_true,
+    hctr, hne, hnd, ne_eq, not_false_eq_true, Conn.encodeIf, false_and]
+  refine ⟨_, _, rfl, ?_, rfl, hrel,
+    ordinary_of_fields _ ({ type := TYPE_DISCONNECT, flags := FLAG_RELIABLE + FLAG_NEED_ACK } : Packet) ⟨rfl, rfl⟩
+      ⟨by decide, by decide, by decide, by decide, by decide, by decide⟩,
+    ⟨get_set_self _ _ _ hlt, sc, hsc, hpos⟩, rfl, rfl, rfl, rfl⟩
+  simp [wireOf, kindOf, hnd]
+
 /-- `send_ping()` decomposed: the id comes from substream 0's counter, nothing is encrypted, then `transmit` -/
 theorem sendPing_eq (env : Env) (now : Time) (c : Conn) (n pos : Nat) (hs : SRel c 0 n pos) :
     ∃ (q : Packet) (c2 : Conn), c.sendPing env now = c2.transmit env now q ∧
@@ -376,7 +501,8 @@ structure Cpl (sub : Nat) (ci : Cipher) (size : Nat) (s : Sys) (ch : Chan) : Pro
   blink : s.b.linkUp = true
   beof : EofState s.b
   sent : s.accepted = ch.s.sent
-  opn : ch.s.closing = false
+  opn : s.a.state = STATE_CONNECTED → ch.s.closing = false
+  cln : ch.s.clean = s.clean
   pend : ch.s.pending = s.pend
   bwf : SubWF s.b sub
   bwin : ∃ w, s.b.windows[sub]? = some w ∧ GoodWin sub w ∧ w.map wireOf = ch.r.win
@@ -390,6 +516,7 @@ def Sys.absOp (env : Env) (sub : Nat) (s : Sys) : SysOp → Option Op
   | .begin _ data => if !s.pend.isEmpty || sendRefused s.a sub then none else some (.begin data)
   | .frag _ => some .frag
   | .ping _ => some .ping
+  | .disconnect _ => if s.a.state ≠ STATE_CONNECTED then none else some .disconnect
   | .deliver j => some (.arrive j)
   | .deliverH now j =>
     match s.net[j]? with
@@ -426,7 +553,7 @@ theorem cpl_arrive (env : Env) (hdec : ∀ b, env.decompress b = .ok b) (sub : N
   rw [h.bcipher] at harr hrr hci'
   rw [← hr] at harr hrr
   have hfr := processReliable_frame env s.b p h.beof
-  refine ⟨h.size, h.srel, h.acipher, h.log, h.netgood, h.netord, by rw [hfr.1]; exact h.blink, hfr.2, h.sent, h.opn, h.pend, hwf',
+  refine ⟨h.size, h.srel, h.acipher, h.log, h.netgood, h.netord, by rw [hfr.1]; exact h.blink, hfr.2, h.sent, h.opn, h.cln, h.pend, hwf',
     ⟨w', hw', hgw', ?_⟩, hrr, hci', ?_⟩
   · rw [harr]
   · show s.nrel + _ = (Receiver.arrive ci ch.r (wireOf p)).nrel
@@ -465,16 +592,22 @@ theorem cpl_step (env : Env) (hcomp : ∀ b, env.compress b = b) (hdec : ∀ b, 
         (by simpa using hfine.1) hfine.2
       have hfr := send_frame env now s.a data sub
       rw [h.acipher, h.size] at hr
+      have hstc : s.a.state = STATE_CONNECTED := by
+        unfold sendRefused at href'
+        simp only [Bool.or_eq_false_iff, decide_eq_false_iff_not, ne_eq] at href'
+        exact Classical.not_not.mp href'.1
+      have hcl0 : ch.s.closing = false := h.opn hstc
       have hsend : ch.s.send ci size data =
           { ch.s with nextId := iterSeq (wiresOf ci ch.s.nextId ch.s.encPos (split size data)).length ch.s.nextId,
                       encPos := ch.s.encPos + wiresLen (wiresOf ci ch.s.nextId ch.s.encPos (split size data)),
                       log := ch.s.log ++ wiresOf ci ch.s.nextId ch.s.encPos (split size data),
                       sent := if data.isEmpty then ch.s.sent else ch.s.sent ++ [data] } := by
-        simp [Sender.send, h.opn, hpend0]
+        simp [Sender.send, hcl0, hpend0]
       simp only [stepOpt, Chan.step, Sys.step, hbusy', Bool.false_eq_true, if_false]
       rw [hsend]
       have hacc : (s.a.send env now data sub).err.isNone = true := hfine.1
-      refine ⟨?_, ?_, ?_, ?_, ?_, ?_, h.blink, h.beof, ?_, h.opn, h.pend, h.bwf, h.bwin, h.rrel, h.bcipher, h.nrel⟩
+      refine ⟨?_, ?_, ?_, ?_, ?_, ?_, h.blink, h.beof, ?_,
+        fun hst => h.opn (connected_of_stateFr (send_state env now s.a data sub) hst), h.cln, h.pend, h.bwf, h.bwin, h.rrel, h.bcipher, h.nrel⟩
       · rw [hfr.1]; exact h.size
       · simp only [wiresOf_length]; exact hr.2
       · -- the cipher (key, on/off) of the substream is what it was
@@ -501,11 +634,18 @@ theorem cpl_step (env : Env) (hcomp : ∀ b, env.compress b = b) (hdec : ∀ b, 
       have hidle : s.pend = [] := by
         simp only [Bool.or_eq_false_iff] at hg'; simpa using hg'.1
       have hpend0 : ch.s.pending = [] := by rw [h.pend, hidle]
+      have hstc : s.a.state = STATE_CONNECTED := by
+        simp only [Bool.or_eq_false_iff] at hg'
+        have h2 := hg'.2
+        unfold sendRefused at h2
+        simp only [Bool.or_eq_false_iff, decide_eq_false_iff_not, ne_eq] at h2
+        exact Classical.not_not.mp h2.1
+      have hcl0 : ch.s.closing = false := h.opn hstc
       have hb : ch.s.begin size data =
           { ch.s with pending := split size data, sent := if data.isEmpty then ch.s.sent else ch.s.sent ++ [data] } := by
-        simp [Sender.begin, h.opn, hpend0]
+        simp [Sender.begin, hcl0, hpend0]
       rw [hb]
-      refine ⟨h.size, h.srel, h.acipher, h.log, h.netgood, h.netord, h.blink, h.beof, ?_, h.opn, ?_, h.bwf, h.bwin, h.rrel, h.bcipher, h.nrel⟩
+      refine ⟨h.size, h.srel, h.acipher, h.log, h.netgood, h.netord, h.blink, h.beof, ?_, h.opn, h.cln, ?_, h.bwf, h.bwin, h.rrel, h.bcipher, h.nrel⟩
       · show (if data.isEmpty then s.accepted else s.accepted ++ [data]) = _
         rw [h.sent]
       · show split size data = split s.a.fragmentSize data
@@ -548,7 +688,8 @@ theorem cpl_step (env : Env) (hcomp : ∀ b, env.compress b = b) (hdec : ∀ b, 
         simp [Sender.frag, hpendc]
       simp only [Sys.step, hp]
       rw [hfrag, hem]
-      refine ⟨?_, ?_, ?_, ?_, ?_, ?_, h.blink, h.beof, h.sent, h.opn, rfl, h.bwf, h.bwin, h.rrel, h.bcipher, h.nrel⟩
+      refine ⟨?_, ?_, ?_, ?_, ?_, ?_, h.blink, h.beof, h.sent,
+        fun hst => h.opn (connected_of_stateFr (sendPacket_state env now s.a (dataPacket sub f)) hst), h.cln, rfl, h.bwf, h.bwin, h.rrel, h.bcipher, h.nrel⟩
       · rw [hfr.1]; exact h.size
       · rw [heq]; exact hst.1
       · rw [heq, hst.2]; exact hc2
@@ -588,7 +729,8 @@ theorem cpl_step (env : Env) (hcomp : ∀ b, env.compress b = b) (hdec : ∀ b, 
       · exact h1.1
     simp only [Sys.step, Sender.ping]
     rw [hem]
-    refine ⟨?_, ?_, ?_, ?_, ?_, ?_, h.blink, h.beof, h.sent, h.opn, h.pend, h.bwf, h.bwin, h.rrel, h.bcipher, h.nrel⟩
+    refine ⟨?_, ?_, ?_, ?_, ?_, ?_, h.blink, h.beof, h.sent,
+      fun hst => h.opn (connected_of_stateFr (sendPacket_state env now s.a _) hst), h.cln, h.pend, h.bwf, h.bwin, h.rrel, h.bcipher, h.nrel⟩
     · rw [heq, transmit_frag, hf2]; exact h.size
     · rw [heq]; exact hst.1
     · rw [heq, hst.2, hc2]; exact h.acipher
@@ -604,6 +746,65 @@ theorem cpl_step (env : Env) (hcomp : ∀ b, env.compress b = b) (hdec : ∀ b, 
       · exact h.netgood p hpm
       · have : p = q := List.mem_singleton.mp hpm
         subst this; exact ⟨hq0, hqr⟩
+  | disconnect now =>
+    simp only [Sys.absOp]
+    by_cases hst : s.a.state = STATE_CONNECTED
+    · have hne : ¬ s.a.state ≠ STATE_CONNECTED := fun h => h hst
+      simp only [hne, if_false, stepOpt, Chan.step, Sys.step]
+      refine ⟨?_, fun o ho => by cases ho; rfl⟩
+      simp only [Sys.opOk, hne, decide_false, Bool.false_or, Bool.and_eq_true, decide_eq_true_eq] at hok
+      obtain ⟨⟨hsub, herr⟩, hlink⟩ := hok
+      subst hsub
+      have hcl0 : ch.s.closing = false := h.opn hst
+      obtain ⟨q, c2, heq, hwire, hq0, hqr, hqo, hs2, hc2, hl2, hf2, hst2⟩ := sendDisconnect_eq env now s.a ch.s.nextId ch.s.encPos h.srel hst
+      have ht := transmit_emit env now c2 q
+      have hstr := srel_transmit env now c2 q 0 _ _ hs2
+      have hem : emitted (s.a.disconnect env now) = [q] := by
+        rw [heq]
+        rcases ht.1 with h1 | h1
+        · exfalso
+          rcases h1.2 with h2 | h2
+          · rw [← heq] at h2
+            cases he : (s.a.disconnect env now).err with
+            | none => rw [he] at h2; cases h2
+            | some e => rw [he] at herr; simp at herr
+          · have : (s.a.disconnect env now).c.linkUp = false := by rw [heq, ht.2.2.2.2]; exact h2
+            rw [this] at hlink; cases hlink
+        · exact h1.1
+      have hdis : Sender.disconnect ch.s =
+          { ch.s with nextId := seqNext ch.s.nextId
+                      log := ch.s.log ++ [({ id := ch.s.nextId, kind := Kind.disconnect, cipher := [] } : Wire)]
+                      closing := true
+                      clean := ch.s.pending.isEmpty } := by
+        simp [Sender.disconnect, hcl0]
+      rw [hdis, hem]
+      refine ⟨?_, ?_, ?_, ?_, ?_, ?_, h.blink, h.beof, h.sent, ?_, ?_, h.pend, h.bwf, h.bwin, h.rrel, h.bcipher, h.nrel⟩
+      · rw [heq, transmit_frag, hf2]; exact h.size
+      · rw [heq]; exact hstr.1
+      · rw [heq, hstr.2, hc2]; exact h.acipher
+      · simp only [List.map_append, List.map_cons, List.map_nil, h.log, hwire]
+      · intro p hpm
+        rcases List.mem_append.mp hpm with hpm | hpm
+        · exact h.netgood p hpm
+        · have : p = q := List.mem_singleton.mp hpm
+          subst this; exact ⟨hq0, hqr⟩
+      · intro p hpm
+        rcases List.mem_append.mp hpm with hpm | hpm
+        · exact h.netord p hpm
+        · have : p = q := List.mem_singleton.mp hpm
+          subst this; exact hqo
+      · intro hcon
+        exfalso
+        have hfr := transmit_state env now c2 q
+        rw [← heq] at hfr
+        rcases hfr with g | g
+        · rw [g, hst2] at hcon; exact absurd hcon (by decide)
+        · rw [g] at hcon; exact absurd hcon (by decide)
+      · show ch.s.pending.isEmpty = s.pend.isEmpty
+        rw [h.pend]
+    · have hne : s.a.state ≠ STATE_CONNECTED := hst
+      simp only [hne, ne_eq, not_false_eq_true, if_true, stepOpt, Sys.step]
+      exact ⟨h, fun o ho => by cases ho⟩
   | deliver j =>
     simp only [Sys.absOp, stepOpt, Chan.step]
     refine ⟨?_, fun o ho => ?_⟩
@@ -738,14 +939,28 @@ theorem good_safe {sub : Nat} {ci : Cipher} {size start : Nat} {s : Sys} {ch : C
   exact out_prefix_of_inv ci start ch h.snd h.rcv
 
 theorem good_complete {sub : Nat} {ci : Cipher} {size start : Nat} {s : Sys} {ch : Chan} (h : Good sub ci size start s ch)
-    (hall : s.nrel = s.net.length) (hidle : s.pend = []) :
+    (hall : s.nrel = s.net.length) (hidle : s.pend = []) (hopen : s.a.state = STATE_CONNECTED ∨ s.clean = true) :
     (s.b.queues[sub]?.getD []) = s.accepted ∧ (s.b.eof = false → (s.b.fragBufs[sub]?.getD []) = []) := by
   have hn : ch.r.nrel = ch.s.log.length := by rw [← h.cpl.nrel, hall, ← h.cpl.log, List.length_map]
   have hc := h.rcv.core
-  rw [hn, List.take_length, sndInv_cons h.snd (h.cpl.pend.trans hidle) (Or.inl h.cpl.opn)] at hc
+  have hcc : ch.s.closing = false ∨ ch.s.clean = true := by
+    rcases hopen with h1 | h1
+    · exact Or.inl (h.cpl.opn h1)
+    · exact Or.inr (h.cpl.cln.trans h1)
+  rw [hn, List.take_length, sndInv_cons h.snd (h.cpl.pend.trans hidle) hcc] at hc
   refine ⟨?_, fun hl => ?_⟩
   · rw [← h.cpl.rrel.out, h.cpl.sent, hc]
   · rw [← (h.cpl.rrel.live hl).1, hc]
+
+/-- **graceful close, end to end**: if the receiving endpoint has reached end-of-stream (in this system that can only happen
+    through the sender's DISCONNECT being released) and `disconnect()` was called while no `send` was between its fragments,
+    everything the sending application passed to `send` had been delivered before -/
+theorem good_closed {sub : Nat} {ci : Cipher} {size start : Nat} {s : Sys} {ch : Chan} (h : Good sub ci size start s ch)
+    (heof : s.b.eof = true) (hclean : s.clean = true) :
+    (s.b.queues[sub]?.getD []) = s.accepted := by
+  have hcl : ch.r.core.closed = true := by rw [h.cpl.rrel.closed]; exact heof
+  have := closed_after_everything ci start ch h.snd h.rcv hcl (h.cpl.cln.trans hclean)
+  rw [← h.cpl.rrel.out, h.cpl.sent, this.2.1]
 
 end Nx.L1
 
@@ -785,7 +1000,8 @@ theorem fresh_good (env : Env) (sub : Nat) (hsub : sub ≤ env.s.maxSubstreamId)
       blink := rfl
       beof := fun he => by cases he
       sent := rfl
-      opn := rfl
+      opn := fun _ => rfl
+      cln := rfl
       pend := rfl
       bwf := ⟨by simp [Sys.fresh, b, Conn.new, hn], by simp [Sys.fresh, b, Conn.new, hn], by simp [Sys.fresh, b, Conn.new, hn]⟩
       bwin := ⟨_, replicate_get _ _ _ hn, (fun kq hkq => by cases hkq), rfl⟩
